@@ -86,7 +86,7 @@ theorem coordinate_map (main : NDArr α) (pS pR sS sR : List Nat) (posInds : Lis
     (hflat : main.flat.length = npoints (sizeFn pS) pR * npoints (sizeFn sS) sR)
     (hlp : posLabs.length = pS.length) (hls : specLabs.length = sS.length) (hnd : (posLabs ++ specLabs).Nodup) :
     ∃ nd, reshapeToNDims main posInds (gridMatrix sS sR) posLabs specLabs false = .ok (nd, posLabs ++ specLabs) ∧
-      nd.shape = pS ++ sS ∧
+      nd.shape = pS ++ sS ∧ nd.flat.length = (pS ++ sS).prod ∧
       ∀ r c, r < npoints (sizeFn pS) pR → c < npoints (sizeFn sS) sR →
         nd.get (coords pS pR r (List.range pS.length) ++ coords sS sR c (List.range sS.length)) = main.get [r, c] := by
   obtain ⟨h0, hsh0, hget0⟩ := coordinate_map_sorted main pS pR sS sR posInds posLabs specLabs hP hS hkP hkS hpos
@@ -107,9 +107,9 @@ theorem coordinate_map (main : NDArr α) (pS pR sS sR : List Nat) (posInds : Lis
         (fun i => (posLabs ++ specLabs).getD i default) := by
     rw [sigma_map pS.length _ _ posLabs specLabs default hlp hltP]
     simp [pick, List.map_reverse]
-  obtain ⟨nd2, ht, hsh2, hlab2, hget2⟩ := swap_back (sortedND main pS pR sS sR) (pS.length + sS.length) _ hsig (pS ++ sS)
+  obtain ⟨nd2, ht, hsh2, hlen2, hlab2, hget2⟩ := swap_back (sortedND main pS pR sS sR) (pS.length + sS.length) _ hsig (pS ++ sS)
     (by simp) hshσ (posLabs ++ specLabs) (by simp [hlp, hls]) hnd
-  refine ⟨nd2, ?_, hsh2, ?_⟩
+  refine ⟨nd2, ?_, hsh2, hlen2, ?_⟩
   · have hdP := dims_along pS pR _ hP hkP hpermP
     have hdS := dims_along sS sR _ hS hkS hpermS
     have hprodP : ((getSortOrder (gridMatrix pS pR)).map (sizeFn pS)).prod = npoints (sizeFn pS) pR := (hpermP0.map _).prod_nat
@@ -178,7 +178,7 @@ theorem wrapper_views (main : NDArr α) (pS pR sS sR : List Nat) (posInds : List
         let fileCoords := coords pS pR r (List.range pS.length) ++ coords sS sR c (List.range sS.length)
         ndF.get fileCoords = main.get [r, c] ∧ ndS.get (sigma.map (fun i => fileCoords.getD i 0)) = main.get [r, c] := by
   intro sigma
-  obtain ⟨ndF, hF, hshF, hgetF⟩ := coordinate_map main pS pR sS sR posInds posLabs specLabs hP hS hkP hkS hpos hshape hflat
+  obtain ⟨ndF, hF, hshF, _, hgetF⟩ := coordinate_map main pS pR sS sR posInds posLabs specLabs hP hS hkP hkS hpos hshape hflat
     hlp hls hnd
   have hpermP := ((order_is_rate pS pR hP hkP).1).trans hP.1
   have hpermS := ((order_is_rate sS sR hS hkS).1).trans hS.1
